@@ -106,7 +106,7 @@ CLASSES = {"booleans": "C_booleans", "strings": "C_strings", "numbers": "C_numbe
            "tuple": "C_tuple", "set": "C_set", "frozenset": "C_frozenset", "SetOrdered": "C_SetOrdered",
            "Iterable": "C_Iterable", "Sequence": "C_Sequence", "bytes_type": "C_bytes_type", "str": "C_str"}
 OUTSIDE_CLASSES = {"datetime.datetime", "datetime.date", "datetime.timedelta", "datetime.time", "ipranges", "uuids",
-                   "np_ndarray", "np_floating", "PydanticBaseModel", "Enum", "float"}
+                   "np_ndarray", "np_floating", "PydanticBaseModel", "Enum"}
 RELCLASSES = {"DictRelationship", "AttributeRelationship", "SubscriptableIterableRelationship",
               "NonSubscriptableIterableRelationship", "SetRelationship"}
 OUTSIDE_COMPARERS = {"_diff_datetime", "_diff_ipranges", "_diff_time", "_diff_uuids", "_diff_numpy_array", "_diff_obj",
